@@ -397,7 +397,7 @@ def pcStep (c : Compiled) (st : Style) (s : PCState) (name : Str) : Except Err P
     if b.kind = .litExec ∨ b.kind = .litExecExp then
       if (alookup ename s.repl).isSome then .ok s
       else
-        match alookup ename s.params with     -- parameters.pop(escaped_name)
+        match alookup name s.params with     -- parameters.pop(name)   (fix 35f86e1: unescaped name)
         | none => .error .keyError
         | some v =>
           let r : Str := match b.kind, v with
@@ -405,7 +405,7 @@ def pcStep (c : Compiled) (st : Style) (s : PCState) (name : Str) : Except Err P
             | .litExecExp, .one x => x      -- not produced by the harness
             | _, .one x => x
             | _, .many vs => joinWith [',', ' '] vs
-          .ok { s with params := aremove ename s.params, repl := aset ename r s.repl }
+          .ok { s with params := aremove name s.params, repl := aset ename r s.repl }
     else if b.kind = .expanding then
       let found := alookup ename s.repl
       let step : Except Err (PCState × List (Str × Str)) :=
